@@ -284,9 +284,9 @@ class XMLSerializer(object):
                 elif sysid:
                     buf.append(' SYSTEM')
                 if sysid:
-                    buf.append(' "%s"')
+                    buf.append('"' in sysid and " '%s'" or ' "%s"')
                 buf.append('>\n')
-                yield Markup(''.join(buf)) % tuple([p for p in data if p])
+                yield Markup(''.join(buf) % tuple([p for p in data if p]))
                 have_doctype = True
 
             elif kind is START_CDATA:
@@ -393,9 +393,9 @@ class XHTMLSerializer(XMLSerializer):
                 elif sysid:
                     buf.append(' SYSTEM')
                 if sysid:
-                    buf.append(' "%s"')
+                    buf.append('"' in sysid and " '%s'" or ' "%s"')
                 buf.append('>\n')
-                yield Markup(''.join(buf)) % tuple([p for p in data if p])
+                yield Markup(''.join(buf) % tuple([p for p in data if p]))
                 have_doctype = True
 
             elif kind is XML_DECL and not have_decl and not drop_xml_decl:
@@ -521,9 +521,9 @@ class HTMLSerializer(XHTMLSerializer):
                 elif sysid:
                     buf.append(' SYSTEM')
                 if sysid:
-                    buf.append(' "%s"')
+                    buf.append('"' in sysid and " '%s'" or ' "%s"')
                 buf.append('>\n')
-                yield Markup(''.join(buf)) % tuple([p for p in data if p])
+                yield Markup(''.join(buf) % tuple([p for p in data if p]))
                 have_doctype = True
 
             elif kind is PI:
